@@ -5,6 +5,7 @@ import itertools
 import os
 import random
 import shutil
+import sys
 import tempfile
 import time
 import zipfile
@@ -13,39 +14,54 @@ from harness.common import Ck, coq_list, coq_str, coq_bytes, parse_coq_N_list
 from translate import c19_walk
 
 MANIFEST = dict(
-    technique='Rocq proof (backends as translated operation lists refining one folded-name map for every query string; walk_folder exactness for the sound folder forms; RawFileSystem lookup/walk from its translated operations; chain first-match / priority / prefix / de-duplication laws and their composition: every entry of the chain walk is what the chain lookup returns, and conversely) + fail-closed ast translator of every normalisation, folder test, walk source, add_sys branch and de-duplication shape + instance obligations and an instance theorem at the generated configuration + vm_compute correspondence over the four real backends and chains + differential oracle',
+    technique='Rocq proof (backends as translated operation lists refining one folded-name map for every query string; walk_folder exactness for the sound folder forms; RawFileSystem lookup/walk from its translated operations; chain first-match / priority / prefix / de-duplication laws; every public lookup form of a chain - [], in, _get_file, _file_exists, open_bin, open_str, the bytes read, walk_folder, iter - equal to one specification function for members of any backend kind; the VPK content expression and the container reader FileInfo.read() as translated expressions that return the stored bytes in every placement) + fail-closed ast translator working on a canonical form of filesys.py / vpk.py (semantic normalisation, 15 rewrite rules, the rewritten module is executed and compared with the real one on every run) + instance obligations and two instance theorems at the generated configuration + vm_compute correspondence over the four real backends and chains + differential oracle',
     text='Theorems in Props/C19.v, generic over a backend record of normalisation operations regenerated from filesys.py on every run. '
          'Lookup: backends whose query functions convert the slashes, normalise the path and fold the case (today\'s source, obligation *_keys_normalise_every_spelling) agree with each other and with the specification map (folded name -> last stored file) on _get_file, _file_exists and open_bin for EVERY query string; empty and "." segments, either slash and letter case are proved insignificant (c19_normpath_noise, c19_lookup_noise_insensitive); any other recognised form agrees on queries normpath leaves alone (c19_lookup_agree); the pinned forms are refuted on "./x" and ".\\x". '
+         'Bytes: what VPKFileSystem.open_bin/open_str read is a translated expression over the FileInfo, and FileInfo.read() itself is translated from vpk.py with the slice displacements found in the source; expressions recognised as whole return the stored bytes for every split between preload and rest, for the directory tail, a numbered archive and a single-file VPK, wherever the rest lies (c19_vpk_content_whole_all_placements, c19_vpk_open_same_bytes, c19_vpk_reader_whole_all_placements, c19_vpk_open_through_reader); the preload shortcut and the one-byte-short slice are refuted. '
          'RawFileSystem, from the operations that reach _resolve_path: an exact-case name in any spelling and either slash finds the stored file in the directory backend and in every folding backend; its walk lists exactly the files below the normalised folder and every listed name looks up. '
          'walk_folder with a sound form (dictionary source, folded key compared with a folder-boundary prefix) lists exactly the surviving files inside the folder (empty folder = all), every listed name looks up to that file, no name twice; string-prefix, root-is-dot, case-sensitive, container-prefilter (VPK.fileinfos) and container-iteration forms are refuted by kernel-computed witnesses. '
-         'FileSystemChain: _get_file returns the first member that has the name; priority insertion first / plain insertion last (both add_sys branches translated); restricted members are asked for prefix/name; the de-duplicated walk lists each folded name once keeping the first member\'s entry, the dict-overwrite shape is refuted. '
-         'Composition (c19_chain_walk_lookup_closed, c19_chain_walk_complete): for any list of sound members with empty or clean prefixes and an empty or clean folder, every (path, File) the de-duplicated walk lists is exactly what chain[path] returns (first member wins, listed names look up), and every clean name inside the folder that the chain serves is listed with that File; the theorem is re-instantiated at the generated configuration on every run. '
-         'The generated model is compared with the real Virtual/Zip/VPK/Raw backends (lookups in all spellings, walks of normalised and un-normalised folders) and with chains (lookup, walk_folder, walk_folder_repeat); a reference oracle written from the property checks the four real backends and chains of up to 4 members in all orderings, plus non-ASCII case folding for the in-memory and zip backends.',
-    note='Trusted: Coq kernel + vm_compute, translate/c19_walk.py, zipfile, the VPK writer of vpk.py (and VPK.fileinfos only through a shape check), the OS directory semantics (RawFileSystem: exact names via os.path.isfile/open/os.walk after abspath; RootEscapeError belongs to C18). Model restrictions: ASCII case folding only in the model (non-ASCII casefold is searched on the in-memory and zip backends; VPK names are ASCII); stored names are clean relative "/" paths; ".." segments are modelled (full posixpath.normpath) and compared by correspondence but the general noise theorem covers only empty and "." segments; the composition theorems assume empty or clean prefixes and folders (other spellings: correspondence and oracle); absolute paths are outside the statement. Which of two stored names differing only in case wins depends on container order (c19_lookup_order_matters_for_case_duplicates); VPK regroups files, see known finding case-duplicate-winner-vpk-differs. Observations (not violations): RawFileSystem.open_bin of a directory raises IsADirectoryError where the others raise FileNotFoundError; File.path of a lookup differs per backend.',
+         'FileSystemChain: c19_chain_every_form_spec - for every query string and every list of members of whatever backend kind (no premise on the prefixes) chain[q] / _get_file(q), the resolution of open_bin / open_str(q), q in chain / _file_exists(q) in every recognised sound shape and the bytes read from the handle are the specification function chain_spec (first member, in priority order, whose files contain subfolder/name up to case, slash kind and redundant segments); hence the backend kind of a member is unobservable through a chain (c19_chain_backend_kind_unobservable); chains that also contain directory backends answer like chain_spec on queries that are exact for those members (c19_chain_with_directory_members_spec, premise shown necessary); a _file_exists loop that re-assigns the joined name is refuted (c19_chain_exists_carried_name_refuted). Priority insertion first / plain insertion last (both add_sys branches translated); the de-duplicated walk lists each folded name once keeping the first member\'s entry, the dict-overwrite shape is refuted. '
+         'Composition (c19_chain_walk_lookup_closed, c19_chain_walk_complete, c19_chain_walk_every_entry_spec, c19_chain_walk_lists_spec, c19_chain_iter_lists_spec): for members with empty or clean prefixes and an empty or clean folder, every (path, File) the de-duplicated walk lists is the specification\'s answer for path (it looks up in every form and reads the listed bytes), and every clean name the specification serves inside the folder is listed with that File; iter(chain) lists every clean name served. All of these are re-instantiated at the generated configuration on every run. '
+         'The generated model is compared with the real Virtual/Zip/VPK/Raw backends (lookups in all spellings incl. open_str, VPKs written in 7 data placements, walks of normalised and un-normalised folders) and with chains ([], in, open_bin, open_str, walk_folder, walk_folder_repeat); a reference oracle written from the property checks every public form on the four real backends and on chains of up to 4 members in all orderings, file contents for 5 VPK placement classes with sizes around the preload limits (1024, 65535), plus non-ASCII case folding for the in-memory and zip backends.',
+    note='Trusted: Coq kernel + vm_compute, translate/c19_walk.py (its canonicalisation rewrites are meant to be equivalences of Python programs; on every run the rewritten filesys.py is compiled, executed and compared with the real classes on every lookup form, walks and chains - obligations translate:canonical-form-runs / -is-equivalent), zipfile, the VPK writer of vpk.py (where the bytes are put; the reader is translated; VPK.fileinfos only through a shape check), which numbered archive file is opened (C13), the OS directory semantics (RawFileSystem: exact names via os.path.isfile/open/os.walk after abspath; RootEscapeError belongs to C18). Model restrictions: ASCII case folding only in the model (non-ASCII casefold is searched on the in-memory and zip backends; VPK names are ASCII); stored names are clean relative "/" paths; ".." segments are modelled (full posixpath.normpath) and compared by correspondence but the general noise theorem covers only empty and "." segments; the walk/composition theorems assume empty or clean prefixes and folders (other spellings: correspondence and oracle) - the chain lookup theorem has no such premise; absolute paths are outside the statement; reading a slice of the wrong home is modelled as returning nothing (such readers are never recognised as whole). Which of two stored names differing only in case wins depends on container order (c19_lookup_order_matters_for_case_duplicates); VPK regroups files, see known finding case-duplicate-winner-vpk-differs. Observations (not violations): RawFileSystem.open_bin of a directory raises IsADirectoryError where the others raise FileNotFoundError; File.path of a lookup differs per backend.',
 )
 
-IMPORTS = ['Coq.Lists.List', 'Coq.NArith.NArith', 'Coq.Bool.Bool', 'SV.SM.FsChain', 'SV.Gen.FsWalk_gen']
+IMPORTS = ['Coq.Lists.List', 'Coq.NArith.NArith', 'Coq.Bool.Bool', 'SV.SM.FsChain', 'SV.SM.FsChainForms', 'SV.SM.FsChainRead', 'SV.Gen.FsWalk_gen']
 PRE = '''Import ListNotations. Open Scope N_scope.
 Fixpoint l1_eqb (a b : list N) : bool := match a, b with [], [] => true | x :: a', y :: b' => (x =? y) && l1_eqb a' b' | _, _ => false end.
 Fixpoint l2_eqb (a b : list (list N)) : bool := match a, b with [], [] => true | x :: a', y :: b' => l1_eqb x y && l2_eqb a' b' | _, _ => false end.
 Fixpoint l3_eqb (a b : list (list (list N))) : bool := match a, b with [], [] => true | x :: a', y :: b' => l2_eqb x y && l3_eqb a' b' | _, _ => false end.
 Fixpoint bad_idx {A} (f : A -> bool) (n : N) (l : list A) : list N := match l with [] => [] | x :: r => (if f x then [] else [n]) ++ bad_idx f (n + 1) r end.
 Definition code (o : option file) : list N := match o with Some (_, b) => 1 :: b | None => [0] end.
-Definition obs (b : backend) (fs : list file) (qs folders : list str) : list (list (list N)) :=
-  [map (fun q => code (lookup b fs q)) qs; map (fun q => if exists_ b fs q then [1] else [0]) qs; map (fun q => code (open_ b fs q)) qs]
+Definition vcode (lim : N) (d : bool) (c : cexpr) (o : option file) : list N :=
+  match o with Some (_, b) => 1 :: ceval_r vpk_reader c (rfile_of [] [] (N.to_nat lim) d b) | None => [0] end.
+Definition obs (k : N) (lim : N) (d : bool) (b : backend) (fs : list file) (qs folders : list str) : list (list (list N)) :=
+  let cb := fun o => if k =? 2 then vcode lim d vpk_open_bin_content o else code o in
+  let cs := fun o => if k =? 2 then vcode lim d vpk_open_str_content o else code o in
+  [map (fun q => cb (lookup b fs q)) qs; map (fun q => if exists_ b fs q then [1] else [0]) qs; map (fun q => cb (open_ b fs q)) qs;
+   map (fun q => cs (open_ b fs q)) qs]
   ++ map (fun f => map fst (walk b fs f)) folders.
 Definition cfg_of (k : N) : backend := match k with 0 => virtual_cfg | 1 => zip_cfg | _ => vpk_cfg end.
 Definition raw_obs (fs : list file) (qs folders : list str) : list (list (list N)) :=
   [map (fun q => code (raw_lookup_ops raw_get_ops fs q)) qs;
    map (fun q => match raw_lookup_ops raw_exists_ops fs q with Some _ => [1] | None => [0] end) qs;
+   map (fun q => code (raw_lookup_ops raw_open_ops fs q)) qs;
    map (fun q => code (raw_lookup_ops raw_open_ops fs q)) qs]
   ++ map (fun f => map fst (raw_walk raw_walk_ops fs f)) folders.
 Definition mk_chain (ms : list ((N * list file * str) * bool)) : list member :=
   fold_left (fun acc x => add_sys2 chain_prio_action chain_plain_action (snd x) (member_of (cfg_of (fst (fst (fst x)))) (snd (fst (fst x))) (snd (fst x))) acc) ms [].
 Definition ordered (ms : list member) (fwd : bool) := if fwd then ms else rev ms.
+Definition do_insx (a : ins_action) (m : xmember) (ms : list xmember) : list xmember :=
+  match a with InsertAt n => firstn n ms ++ m :: skipn n ms | Append => ms ++ [m] end.
+Definition mk_xchain (ms : list ((N * list file * str) * bool)) : list xmember :=
+  fold_left (fun (acc : list xmember) (x : (N * list file * str) * bool) => do_insx (if snd x then chain_prio_action else chain_plain_action)
+                                  (xmember_of (cfg_of (fst (fst (fst x)))) (snd (fst (fst x))) (snd (fst x))) acc) ms [].
 Definition chain_obs (ms : list ((N * list file * str) * bool)) (qs folders : list str) : list (list (list N)) :=
   let c := mk_chain ms in
-  [map (fun q => code (chain_get (ordered c chain_get_forward) q)) qs]
+  let xc := mk_xchain ms in
+  [map (fun q => code (chain_get (ordered c chain_get_forward) q)) qs;
+   map (fun q => if chain_exists chain_exists_mode (if chain_get_forward then xc else rev xc) q then [1] else [0]) qs;
+   map (fun q => code (chain_open (ordered c chain_get_forward) q)) qs]
   ++ map (fun f => flat_map (fun x => [fst x; snd (snd x)]) (chain_walk_mode chain_dedup_mode chain_relmode chain_dedup_ops (ordered c chain_walk_forward) f)) folders
   ++ map (fun f => flat_map (fun x => [fst x; snd (snd x)]) (chain_walk_repeat chain_relmode (ordered c chain_walk_forward) f)) folders.
 '''
@@ -64,6 +80,104 @@ Proof.
   split; [reflexivity|]. destruct Hb as [<-|[<-|[<-|[]]]]; (split; [vm_compute; reflexivity|]); (split; [vm_compute; reflexivity|]); split; assumption.
 Qed.
 Print Assumptions today_chain_walk_lookup_closed.
+(* ... and every entry today's walk_folder / iter lists is the specification's answer for the listed name (chain_spec is
+   written from the property text; that every lookup form equals it is the other instance theorem) *)
+Definition gen_kmember0 (m : kmember) : Prop :=
+  In (k_b m) [virtual_cfg; zip_cfg; vpk_cfg] /\\ clean_fs (k_fs m) = true /\\ okp (k_p m) /\\ k_store m = None.
+Theorem today_chain_walk_every_entry_spec : forall ms folder x,
+  Forall gen_kmember0 ms -> okp folder ->
+  In x (chain_walk_mode chain_dedup_mode chain_relmode chain_dedup_ops (map k_member ms) folder) ->
+  chain_spec (map k_spec ms) (fst x) = Some (snd x).
+Proof.
+  intros ms folder x Hms Hf Hin.
+  destruct (c19_chain_walk_every_entry_spec ExViaGet chain_dedup_ops ms folder x) as [A _];
+    [reflexivity|vm_compute; reflexivity| |exact Hf|exact Hin|exact A].
+  eapply Forall_impl; [|exact Hms]. intros m [Hb [Hfs [Hp Hs]]].
+  split; [split; [|split; [exact Hfs|rewrite Hs; exact I]]|split; [|exact Hp]];
+    destruct Hb as [<-|[<-|[<-|[]]]]; vm_compute; reflexivity.
+Qed.
+Print Assumptions today_chain_walk_every_entry_spec.
+'''
+
+INSTANCE_THEOREM_FORMS = '''Import ListNotations.
+Definition gen_xmember (m : xmember) : Prop :=
+  exists b fs p, In b [virtual_cfg; zip_cfg; vpk_cfg] /\\ m = xmember_of b fs p /\\ clean_fs fs = true.
+(* `name in chain` answers exactly when chain[name] finds a file, for every chain over today's backends *)
+Theorem today_chain_exists_agrees : forall ms q,
+  Forall gen_xmember ms ->
+  chain_exists chain_exists_mode ms q = is_some (chain_get (map x_base ms) q).
+Proof.
+  intros ms q Hms.
+  apply (c19_chain_exists_agrees_backends chain_exists_mode ms q); [vm_compute; reflexivity|].
+  eapply Forall_impl; [|exact Hms]. intros m [b [fs [p [Hb [-> Hc]]]]]. exists b, fs, p.
+  split; [reflexivity|]. split; [|exact Hc]. destruct Hb as [<-|[<-|[<-|[]]]]; vm_compute; reflexivity.
+Qed.
+Print Assumptions today_chain_exists_agrees.
+(* the VPK backend returns the bytes the in-memory and zip backends return, wherever the VPK keeps them *)
+Theorem today_vpk_same_bytes : forall limit in_dir b2 fs q,
+  In b2 [virtual_cfg; zip_cfg] -> clean_fs fs = true ->
+  open_bytes vpk_open_bin_content limit in_dir vpk_cfg fs q = option_map snd (open_ b2 fs q)
+  /\\ open_bytes vpk_open_str_content limit in_dir vpk_cfg fs q = option_map snd (open_ b2 fs q)
+  /\\ open_bytes vpk_open_bin_content limit in_dir vpk_cfg fs q = option_map snd (lookup b2 fs q).
+Proof.
+  intros limit in_dir b2 fs q Hb Hc.
+  assert (H2 : backend_keys_norm b2 = true) by (destruct Hb as [<-|[<-|[]]]; vm_compute; reflexivity).
+  destruct (c19_vpk_open_same_bytes vpk_open_bin_content limit in_dir vpk_cfg b2 fs q) as [E1 E2];
+    [vm_compute; reflexivity|vm_compute; reflexivity|exact H2|exact Hc|].
+  destruct (c19_vpk_open_same_bytes vpk_open_str_content limit in_dir vpk_cfg b2 fs q) as [E3 _];
+    [vm_compute; reflexivity|vm_compute; reflexivity|exact H2|exact Hc|].
+  repeat split; assumption.
+Qed.
+Print Assumptions today_vpk_same_bytes.
+(* the chain sentence of the property at today's source: every lookup form of a chain over today's backends - VPK
+   members read through today's open_bin / open_str expression, bytes kept in any placement - is the specification *)
+Definition gen_kmember (c : cexpr) (m : kmember) : Prop :=
+  In (k_b m) [virtual_cfg; zip_cfg; vpk_cfg] /\\ clean_fs (k_fs m) = true /\\
+  (k_store m = None \\/ exists limit in_dir, k_b m = vpk_cfg /\\ k_store m = Some (c, limit, in_dir)).
+Theorem today_chain_every_form_spec : forall c ms q,
+  In c [vpk_open_bin_content; vpk_open_str_content] -> Forall (gen_kmember c) ms ->
+  chain_get (map k_member ms) q = chain_spec (map k_spec ms) q
+  /\\ chain_open (map k_member ms) q = chain_spec (map k_spec ms) q
+  /\\ chain_exists chain_exists_mode (map k_xmember ms) q = is_some (chain_spec (map k_spec ms) q)
+  /\\ chain_read ms q = option_map snd (chain_spec (map k_spec ms) q).
+Proof.
+  intros c ms q Hc Hms. apply c19_chain_every_form_spec; [vm_compute; reflexivity|].
+  eapply Forall_impl; [|exact Hms]. intros m [Hb [Hf Hs]]. split; [|split; [exact Hf|]].
+  - destruct Hb as [<-|[<-|[<-|[]]]]; vm_compute; reflexivity.
+  - destruct Hs as [->|[limit [in_dir [_ ->]]]]; [exact I|].
+    destruct Hc as [<-|[<-|[]]]; vm_compute; reflexivity.
+Qed.
+Print Assumptions today_chain_every_form_spec.
+(* today's FileInfo.read() and today's open_bin / open_str over it hand out the stored bytes wherever the VPK keeps them *)
+Theorem today_vpk_reader_whole : forall c before after limit in_dir data,
+  In c [vpk_open_bin_content; vpk_open_str_content] ->
+  reval vpk_reader (rfile_of before after limit in_dir data) = data
+  /\\ ceval_r vpk_reader c (rfile_of before after limit in_dir data) = data.
+Proof.
+  intros c before after limit in_dir data Hc. split.
+  - apply c19_vpk_reader_whole_all_placements. vm_compute. reflexivity.
+  - apply c19_vpk_open_through_reader; [vm_compute; reflexivity|]. destruct Hc as [<-|[<-|[]]]; vm_compute; reflexivity.
+Qed.
+Print Assumptions today_vpk_reader_whole.
+(* chains that also contain today's RawFileSystem (the operations that reach _resolve_path in _get_file): on queries that
+   are exact for the directory members the lookup is the specification *)
+Definition gen_mmember (q : str) (m : mmember) : Prop :=
+  match m with
+  | MFold k => gen_kmember vpk_open_bin_content k
+  | MRaw ops fs p => ops = raw_get_ops /\\ clean_fs fs = true /\\ NoDup (map (fun e => nkey (fst e)) fs)
+                     /\\ exact_or_absent fs (normpath (slash (pjoin p q)))
+  end.
+Theorem today_chain_with_directory_members : forall ms q,
+  Forall (gen_mmember q) ms -> mchain_get ms q = chain_spec (map m_spec ms) q.
+Proof.
+  intros ms q H. apply c19_chain_with_directory_members_spec. eapply Forall_impl; [|exact H].
+  intros [k|ops fs p]; cbn [gen_mmember mmember_ok].
+  - intros [Hb [Hf Hs]]. split; [|split; [exact Hf|]].
+    + destruct Hb as [<-|[<-|[<-|[]]]]; vm_compute; reflexivity.
+    + destruct Hs as [->|[limit [in_dir [_ ->]]]]; [exact I|vm_compute; reflexivity].
+  - intros [-> [Hc [Hn Hx]]]. split; [vm_compute; reflexivity|]. split; [exact Hc|]. split; assumption.
+Qed.
+Print Assumptions today_chain_with_directory_members.
 '''
 
 BACKENDS = ['virtual', 'zip', 'vpk', 'raw']
@@ -179,8 +293,11 @@ def folder_candidates(rng: random.Random, files) -> list[tuple[str, str]]:
 
 # ------------------------------------------------------------------------------------------------ building real backends
 class Built:
-    def __init__(self, root: str, files, which=BACKENDS) -> None:
-        from srctools.filesys import VirtualFileSystem, ZipFileSystem, VPKFileSystem, RawFileSystem
+    def __init__(self, root: str, files, which=BACKENDS, vpk_limit=1024, vpk_arch=0, mod=None) -> None:
+        if mod is None:
+            import srctools.filesys as mod
+        VirtualFileSystem, ZipFileSystem, VPKFileSystem, RawFileSystem = (mod.VirtualFileSystem, mod.ZipFileSystem,
+                                                                          mod.VPKFileSystem, mod.RawFileSystem)
         from srctools.vpk import VPK
         self.dir = tempfile.mkdtemp(dir=root)
         self.files = files
@@ -195,11 +312,13 @@ class Built:
             self.fs['zip'] = ZipFileSystem(zp)
         if 'vpk' in which:
             vp = os.path.join(self.dir, 'p_dir.vpk')
-            with VPK(vp, mode='w') as vk:
+            with VPK(vp, mode='w', dir_data_limit=vpk_limit) as vk:
                 for n, b in files:
-                    vk.add_file(n, b)
+                    vk.add_file(n, b, arch_index=vpk_arch)
             self.fs['vpk'] = VPKFileSystem(vp)
-            self.vpk_order = [(f.filename, f.read()) for f in self.fs['vpk'].vpk]
+            # the container's iteration order with the bytes that were stored (not what its reader returns)
+            stored = dict(files)
+            self.vpk_order = [(f.filename, stored[f.filename] if f.filename in stored else f.read()) for f in self.fs['vpk'].vpk]
         if 'raw' in which:
             rd = os.path.join(self.dir, 'raw')
             os.makedirs(rd)
@@ -241,6 +360,16 @@ def impl_lookup(fs, q):
     except Exception as e:      # noqa: BLE001
         op = f'{type(e).__name__}'
     return ex, got, op
+
+
+def impl_open_str(fs, q):
+    try:
+        with fs.open_str(q, 'utf8') as fh:
+            return fh.read().encode('utf8')
+    except (FileNotFoundError, IsADirectoryError):
+        return None
+    except Exception as e:      # noqa: BLE001
+        return f'{type(e).__name__}'
 
 
 def impl_walk(fs, folder):
@@ -294,14 +423,18 @@ def _files_lit(files) -> str:
 
 
 def corr_backends(ck: Ck, root: str) -> None:
-    n = ck.budget(40, 400)
+    n = ck.budget(28, 400)
     cases = []
     for i in range(n):
         rng = ck.rng
         files = CORPUS_SETS[i] if i < len(CORPUS_SETS) else gen_files(rng)
         if not files:
             continue
-        bt = Built(root, files, ['virtual', 'zip', 'vpk', 'raw'])
+        # where the VPK keeps the data: preload only / split with a numbered archive / split with the directory tail
+        lim, arch = rng.choice([(1024, 0), (0, 0), (3, 1), (0, None), (3, None), (7, None), (1, 2)])
+        ck.hist('corr_vpk_placement', f'limit={lim} arch_index={arch}')
+        bt = Built(root, files, ['virtual', 'zip', 'vpk', 'raw'], vpk_limit=lim, vpk_arch=arch)
+        place = f'({lim}, {"true" if arch is None else "false"})'
         try:
             qs = []
             for nm, _ in rng.sample(files, min(3, len(files))):
@@ -321,7 +454,7 @@ def corr_backends(ck: Ck, root: str) -> None:
             for k, name in enumerate(['virtual', 'zip', 'vpk']):
                 fs = bt.fs[name]
                 fl = bt.vpk_order if name == 'vpk' else files
-                res = [impl_lookup(fs, q) for q in qs]
+                res = [impl_lookup(fs, q) + (impl_open_str(fs, q),) for q in qs]
                 walks = [impl_walk(fs, f) for f in folders]
                 if any(isinstance(x, str) for r in res for x in r) or any(isinstance(w, str) for w in walks):
                     ck.violation(f'exception-{name}', f'{name} backend raised an unexpected exception',
@@ -330,20 +463,21 @@ def corr_backends(ck: Ck, root: str) -> None:
                     continue
                 exp = coq_list([coq_list(_code(r[1]) for r in res),
                                 coq_list(('[1]%N' if r[0] else '[0]%N') for r in res),
-                                coq_list(_code(r[2]) for r in res)]
+                                coq_list(_code(r[2]) for r in res),
+                                coq_list(_code(r[3]) for r in res)]
                                + [coq_list(coq_str(p) for p in w) for w in walks])
-                cases.append((f'(({k}, {_files_lit(fl)}), ({coq_list(coq_str(q) for q in qs)}, {coq_list(coq_str(f) for f in folders)}), {exp})',
+                cases.append((f'(({k}, {_files_lit(fl)}), ({coq_list(coq_str(q) for q in qs)}, {coq_list(coq_str(f) for f in folders)}), {place}, {exp})',
                               {'backend': name, 'files': [(a, b.decode()) for a, b in fl], 'queries': qs, 'folders': folders,
                                'impl_lookup': [(r[0], None if r[1] is None else r[1].decode(), None if r[2] is None else r[2].decode()) for r in res],
-                               'impl_walk': walks}))
+                               'impl_walk': walks, 'vpk_dir_data_limit': lim, 'vpk_arch_index': arch}))
                 ck.count('corr_backend_cases')
-                ck.count('corr_backend_observations', 3 * len(qs) + len(folders))
+                ck.count('corr_backend_observations', 4 * len(qs) + len(folders))
                 ck.hist('corr_backend', name)
                 if len(files) > 1 and any(w for w in walks):
                     ck.seen(('corr', name, tuple(a for a, _ in fl), tuple(qs), tuple(folders)))
             # raw: the same queries and folders (exact-case semantics; os.walk's order is the OS's: listed names are
             # put into stored order, anything unexpected is kept so that it shows as a disagreement)
-            rres = [impl_lookup(bt.fs['raw'], q) for q in qs]
+            rres = [impl_lookup(bt.fs['raw'], q) + (impl_open_str(bt.fs['raw'], q),) for q in qs]
             order = {nm: i for i, (nm, _) in enumerate(files)}
             rwalks = []
             for f in folders:
@@ -352,14 +486,15 @@ def corr_backends(ck: Ck, root: str) -> None:
             if not any(isinstance(x, str) for r in rres for x in r) and not any(isinstance(w, str) for w in rwalks):
                 exp = coq_list([coq_list(_code(r[1]) for r in rres),
                                 coq_list(('[1]%N' if r[0] else '[0]%N') for r in rres),
-                                coq_list(_code(r[2]) for r in rres)]
+                                coq_list(_code(r[2]) for r in rres),
+                                coq_list(_code(r[3]) for r in rres)]
                                + [coq_list(coq_str(p) for p in w) for w in rwalks])
-                cases.append((f'((3, {_files_lit(files)}), ({coq_list(coq_str(q) for q in qs)}, {coq_list(coq_str(f) for f in folders)}), {exp})',
+                cases.append((f'((3, {_files_lit(files)}), ({coq_list(coq_str(q) for q in qs)}, {coq_list(coq_str(f) for f in folders)}), {place}, {exp})',
                               {'backend': 'raw', 'files': [(a, b.decode()) for a, b in files], 'queries': qs, 'folders': folders,
                                'impl_lookup': [(r[0], None if r[1] is None else r[1].decode(), None if r[2] is None else r[2].decode()) for r in rres],
                                'impl_walk': rwalks}))
                 ck.count('corr_raw_cases')
-                ck.count('corr_backend_observations', 3 * len(qs) + len(folders))
+                ck.count('corr_backend_observations', 4 * len(qs) + len(folders))
                 ck.hist('corr_backend', 'raw')
             else:
                 ck.violation('exception-raw', 'raw backend raised an unexpected exception',
@@ -373,14 +508,15 @@ def corr_backends(ck: Ck, root: str) -> None:
     _t0 = time.time()
 
     def batch(lo: int):
-        part = cases[lo:lo + 60]
+        part = cases[lo:lo + 45]
         lit = coq_list(c for c, _ in part)
-        expr = ('bad_idx (fun c : (N * list file) * (list str * list str) * list (list (list N)) => '
-                'match fst (fst (fst c)) with 3 => l3_eqb (raw_obs (snd (fst (fst c))) (fst (snd (fst c))) (snd (snd (fst c)))) (snd c) '
-                '| k => l3_eqb (obs (cfg_of k) (snd (fst (fst c))) (fst (snd (fst c))) (snd (snd (fst c)))) (snd c) end) 0 ' + lit)
+        expr = ('bad_idx (fun c : (N * list file) * (list str * list str) * (N * bool) * list (list (list N)) => '
+                'let \'(kf, qf, pl, e) := c in '
+                'match fst kf with 3 => l3_eqb (raw_obs (snd kf) (fst qf) (snd qf)) e '
+                '| k => l3_eqb (obs k (fst pl) (snd pl) (cfg_of k) (snd kf) (fst qf) (snd qf)) e end) 0 ' + lit)
         return lo, ck.coq_eval(IMPORTS, [expr], name=f'backends{lo}', preamble=PRE)
 
-    for lo, vals in _parallel(batch, range(0, len(cases), 60)):
+    for lo, vals in _parallel(batch, range(0, len(cases), 45)):
         if vals is None:
             ck.obligation('correspondence:backends', False, 'model could not be evaluated')
             ck.tie_broken.append('correspondence backends: model evaluation failed')
@@ -398,7 +534,7 @@ def corr_backends(ck: Ck, root: str) -> None:
 
 def corr_chain(ck: Ck, root: str) -> None:
     from srctools.filesys import FileSystemChain
-    n = ck.budget(50, 400)
+    n = ck.budget(40, 400)
     cases = []
     for i in range(n):
         rng = ck.rng
@@ -436,12 +572,20 @@ def corr_chain(ck: Ck, root: str) -> None:
                 folders += [f for f, _ in rng.sample(c, min(2, len(c)))]
             folders = list(dict.fromkeys(folders))
             gets = []
+            exs = []
+            opens = []
             for q in qs:
                 try:
                     with ch[q].open_bin() as fh:
                         gets.append(fh.read())
                 except FileNotFoundError:
                     gets.append(None)
+                exs.append(bool(q in ch))
+                try:
+                    with ch.open_bin(q) as fh:
+                        opens.append(fh.read())
+                except FileNotFoundError:
+                    opens.append(None)
             walks = []
             for f in folders:
                 w = []
@@ -458,12 +602,13 @@ def corr_chain(ck: Ck, root: str) -> None:
             ms_lit = coq_list(
                 f'(({BACKENDS.index(kind)}, {_files_lit(builts[j].vpk_order if kind == "vpk" else sets[j])}, {coq_str(pfx)}), {"true" if prio else "false"})'
                 for kind, j, pfx, prio in members)
-            exp = coq_list([coq_list(_code(g) for g in gets)] + [coq_list(w) for w in walks])
+            exp = coq_list([coq_list(_code(g) for g in gets), coq_list(('[1]%N' if x else '[0]%N') for x in exs),
+                            coq_list(_code(g) for g in opens)] + [coq_list(w) for w in walks])
             cases.append((f'(({ms_lit}, ({coq_list(coq_str(q) for q in qs)}, {coq_list(coq_str(f) for f in folders)})), {exp})',
                           {'members(kind,set,prefix,priority)': members, 'sets': [[a for a, _ in s] for s in sets], 'queries': qs,
-                           'folders': folders, 'impl_get': [None if g is None else g.decode() for g in gets]}))
+                           'folders': folders, 'impl_get': [None if g is None else g.decode() for g in gets], 'impl_in': exs}))
             ck.count('corr_chain_cases')
-            ck.count('corr_chain_observations', len(qs) + 2 * len(folders))
+            ck.count('corr_chain_observations', 3 * len(qs) + 2 * len(folders))
             ck.hist('corr_chain_members', len(members))
             if len(members) > 1 and any(g is not None for g in gets):
                 ck.seen(('corrchain', tuple(members), tuple(tuple(a for a, _ in s) for s in sets), tuple(qs)))
@@ -493,7 +638,7 @@ def corr_chain(ck: Ck, root: str) -> None:
     bad.sort()
     ck.obligation('correspondence:chain', not bad,
                   f'{len(cases)} chains (1-4 members over Virtual/Zip/VPK, prefixes, priority flags): generated model vs '
-                  f'FileSystemChain _get_file / walk_folder / walk_folder_repeat: {len(bad)} disagreements')
+                  f'FileSystemChain chain[q] / q in chain / open_bin(q) / walk_folder / walk_folder_repeat: {len(bad)} disagreements')
     if bad:
         ck.tie_broken.append('correspondence chain (SM/FsChain.v chain_get/chain_walk vs srctools.filesys.FileSystemChain)')
         ck.extra['chain_disagreement'] = min((cases[i][1] for i in bad), key=lambda d: len(repr(d)))
@@ -548,6 +693,15 @@ def check_backends(root: str, files, rng: random.Random, stats=None) -> list[tup
                 elif got != op:
                     out.append((f'lookup-{name}-get-open-differ', f'{name}: {q!r}: fs[q] gives {got!r}, open_bin(q) gives {op!r}',
                                 {'op': 'lookup', 'backend': name, 'files': fj, 'query': q}))
+                if cls in ('exact', 'case-and-slash-variant'):
+                    # the remaining public forms: _get_file, _file_exists, open_str, File.open_str
+                    forms = read_forms(fs, q, 'utf8')
+                    if stats is not None:
+                        stats('lookup_observations', 4)
+                    for form, kind in forms_problems(forms, okb):
+                        if form in ('get_file', 'file_exists', 'open_str', 'file_open_str'):
+                            out.append((f'lookup-{name}-{form}-{kind}', f'{name}: stored {nm!r} queried as {q!r}: {form} gave {forms[form]!r}',
+                                        {'op': 'lookup', 'backend': name, 'files': fj, 'query': q, 'expected_bytes': sorted(x.decode() for x in okb)}))
             for q in absent:
                 ex, got, op = impl_lookup(fs, q)
                 if ex is not False or got is not None or op is not None:
@@ -692,6 +846,334 @@ def check_nonascii(root: str, files, rng: random.Random, stats=None) -> list[tup
     return out
 
 
+# ------------------------------------------------------------------------------------------------ the canonical form, executed
+def canonical_validation(ck: Ck, root: str) -> None:
+    """The translator matches on a canonical form of filesys.py (translate/c19_walk.py: canonical_module + normalise).
+    Its rewrite rules are meant to be equivalences of Python programs; here the rewritten module is *run*: every function
+    and method of filesys.py is replaced by its canonical form, the module is compiled and executed, and its filesystem
+    classes are compared with the real ones on file sets, queries, folders and chains (every public form).  A difference
+    means a rewrite rule changed behaviour - then nothing the translator says about the source can be trusted."""
+    import ast as _ast
+    import types
+    from harness.common import src_text
+    name = 'srctools._c19_canonical_filesys'
+    try:
+        tree = c19_walk.canonical_module(_ast.parse(src_text('filesys.py')))
+        tr = c19_walk.Tr(tree, 'filesys.py')
+        nfn = 0
+        for i, node in enumerate(tree.body):
+            if isinstance(node, _ast.FunctionDef):
+                tr.cls = None
+                tree.body[i] = c19_walk.normalise(tr, None, node)
+                nfn += 1
+            elif isinstance(node, _ast.ClassDef):
+                tr.cls = node
+                for j, m in enumerate(node.body):
+                    if isinstance(m, _ast.FunctionDef):
+                        node.body[j] = c19_walk.normalise(tr, node, m)
+                        nfn += 1
+        _ast.fix_missing_locations(tree)
+        mod = types.ModuleType(name)
+        mod.__package__ = 'srctools'
+        sys.modules[name] = mod
+        exec(compile(tree, '<canonical form of filesys.py>', 'exec'), mod.__dict__)
+    except Exception as e:      # noqa: BLE001
+        sys.modules.pop(name, None)
+        ck.obligation('translate:canonical-form-runs', False, f'the canonical form of filesys.py could not be built / executed: {type(e).__name__}: {e}')
+        ck.tie_broken.append('canonical form of filesys.py does not run')
+        return
+    ck.obligation('translate:canonical-form-runs', True, f'{nfn} functions of filesys.py rewritten to their canonical form, compiled and executed')
+    import srctools.filesys as real
+    diffs: list[str] = []
+    nobs = 0
+    rng = random.Random(ck.seed ^ 0xC19CA)
+    try:
+        for i in range(ck.budget(10, 60)):
+            files = CORPUS_SETS[i] if i < len(CORPUS_SETS) else gen_files(rng)
+            if not files:
+                continue
+            lim, arch = rng.choice([(1024, 0), (0, 0), (3, 1), (0, None), (3, None)])
+            a = Built(root, files, BACKENDS, vpk_limit=lim, vpk_arch=arch)
+            b = Built(root, files, BACKENDS, vpk_limit=lim, vpk_arch=arch, mod=mod)
+            try:
+                qs = []
+                for nm, _ in files[:4]:
+                    qs += rng.sample(spellings(rng, nm), 2) + [q for q, _ in rng.sample(path_spellings(rng, nm), 2)]
+                qs += ['nonexistent.txt', '', '.', files[0][0].split('/')[0]]
+                folders = [f for f, _ in folder_candidates(rng, files)][:10]
+                for kind in BACKENDS:
+                    for q in qs:
+                        ra = impl_lookup(a.fs[kind], q) + (impl_open_str(a.fs[kind], q),)
+                        rb = impl_lookup(b.fs[kind], q) + (impl_open_str(b.fs[kind], q),)
+                        nobs += 1
+                        if ra != rb:
+                            diffs.append(f'{kind}: query {q!r} over {[n for n, _ in files]}: real {ra!r}, canonical {rb!r}')
+                    for f in folders:
+                        wa, wb = impl_walk(a.fs[kind], f), impl_walk(b.fs[kind], f)
+                        if kind == 'raw' and not isinstance(wa, str) and not isinstance(wb, str):
+                            wa, wb = sorted(wa), sorted(wb)
+                        nobs += 1
+                        if wa != wb:
+                            diffs.append(f'{kind}: walk_folder({f!r}) over {[n for n, _ in files]}: real {wa!r}, canonical {wb!r}')
+                # a chain over the same members, built by each module's own FileSystemChain
+                dirs = sorted({'/'.join(nm.split('/')[:k]) for nm, _ in files for k in range(1, len(nm.split('/')))})
+                membs = [(rng.choice(BACKENDS[:3]), rng.choice([''] + dirs[:3] + [d + '/' for d in dirs[:1]] + ['./' + d for d in dirs[:1]]),
+                          rng.random() < 0.3) for _ in range(rng.choice([2, 3, 4]))]
+                ca, cb = real.FileSystemChain(), mod.FileSystemChain()
+                for kind, pfx, prio in membs:
+                    ca.add_sys(a.fs[kind], pfx, priority=prio)
+                    cb.add_sys(b.fs[kind], pfx, priority=prio)
+                cq = list(dict.fromkeys(qs + [nm.split('/', 1)[1] for nm, _ in files if '/' in nm]))
+                for q in cq:
+                    ra = impl_lookup(ca, q) + (impl_open_str(ca, q),)
+                    rb = impl_lookup(cb, q) + (impl_open_str(cb, q),)
+                    nobs += 1
+                    if ra != rb:
+                        diffs.append(f'chain {membs}: query {q!r}: real {ra!r}, canonical {rb!r}')
+                for f in ['', '.'] + dirs[:3]:
+                    for meth in ('walk_folder', 'walk_folder_repeat'):
+                        try:
+                            wa = [x.path for x in getattr(ca, meth)(f)]
+                        except Exception as e:      # noqa: BLE001
+                            wa = type(e).__name__
+                        try:
+                            wb = [x.path for x in getattr(cb, meth)(f)]
+                        except Exception as e:      # noqa: BLE001
+                            wb = type(e).__name__
+                        nobs += 1
+                        if wa != wb:
+                            diffs.append(f'chain {membs}: {meth}({f!r}): real {wa!r}, canonical {wb!r}')
+                la = [x.path for x in ca]
+                lb = [x.path for x in cb]
+                nobs += 1
+                if la != lb:
+                    diffs.append(f'chain {membs}: iter: real {la!r}, canonical {lb!r}')
+            finally:
+                a.close()
+                b.close()
+    finally:
+        sys.modules.pop(name, None)
+    # the same for vpk.py, whose FileInfo.read() is translated from its canonical form: containers written by the real
+    # module in every placement class are read back by the canonical module
+    vname = 'srctools._c19_canonical_vpk'
+    try:
+        vtree = c19_walk.canonical_module(_ast.parse(src_text('vpk.py')))
+        vtr = c19_walk.Tr(vtree, 'vpk.py')
+        for i, node in enumerate(vtree.body):
+            if isinstance(node, _ast.FunctionDef):
+                vtr.cls = None
+                vtree.body[i] = c19_walk.normalise(vtr, None, node)
+            elif isinstance(node, _ast.ClassDef):
+                vtr.cls = node
+                for j, m in enumerate(node.body):
+                    if isinstance(m, _ast.FunctionDef):
+                        node.body[j] = c19_walk.normalise(vtr, node, m)
+        _ast.fix_missing_locations(vtree)
+        vmod = types.ModuleType(vname)
+        vmod.__package__ = 'srctools'
+        sys.modules[vname] = vmod
+        exec(compile(vtree, '<canonical form of vpk.py>', 'exec'), vmod.__dict__)
+        for i, sized in enumerate(CORPUS_SIZED + [gen_sized_files(rng) for _ in range(ck.budget(2, 10))]):
+            files = [(n, content_bytes(n, sz)) for n, sz in sized]
+            if not files:
+                continue
+            for placement in VPK_PLACEMENTS:
+                params = placement_params(rng, placement, len(files))
+                d = tempfile.mkdtemp(dir=root)
+                try:
+                    fs = build_vpk_placement(d, files, params)
+                    stored = dict(files)
+                    real_read = {f.filename: f.read() for f in fs.vpk}
+                    canon_read = {f.filename: f.read() for f in vmod.VPK(os.path.join(d, params['file']))}
+                    nobs += len(real_read)
+                    if real_read != canon_read:
+                        bad = sorted(k for k in set(real_read) | set(canon_read) if real_read.get(k) != canon_read.get(k))
+                        diffs.append(f'vpk.py {placement} {params}: FileInfo.read() differs between vpk.py and its canonical form for {bad[:3]}')
+                    ck.count('canonical_vpk_reads', len(real_read))
+                    del stored
+                finally:
+                    shutil.rmtree(d, ignore_errors=True)
+    except Exception as e:      # noqa: BLE001
+        diffs.append(f'the canonical form of vpk.py could not be built / executed: {type(e).__name__}: {e}')
+    finally:
+        sys.modules.pop(vname, None)
+    ck.count('canonical_form_observations', nobs)
+    ck.obligation('translate:canonical-form-is-equivalent', not diffs,
+                  f'{nobs} observations (every lookup form and walk of the four backends and of chains; FileInfo.read() of containers in '
+                  f'every placement class) agree between filesys.py / vpk.py and their canonical forms as executed' if not diffs else f'{len(diffs)} differences, first: {diffs[0][:600]}')
+    if diffs:
+        ck.tie_broken.append('canonical form of filesys.py behaves differently from filesys.py')
+
+
+# ------------------------------------------------------------------------------------------------ oracle: file contents
+# 'return the same bytes' for every place a VPK can keep a file's data: the preload bytes inside the directory tree
+# (FileInfo.start_data), the block after the tree of the _dir / single file (VPK.footer_data, arch_index None), a numbered
+# archive, and splits between the preload and either of the other two; sizes around the two limits (dir_data_limit,
+# default 1024; the 16-bit preload size 65535).
+SIZES_SMALL = [0, 1, 2, 5, 17, 100]
+SIZES_LARGE = [1023, 1024, 1025, 4096, 65535, 65536, 70000]
+VPK_PLACEMENTS = ['vpk-multi-default', 'vpk-multi-archive', 'vpk-multi-dirtail', 'vpk-multi-nolimit', 'vpk-single']
+LOOKUP_FORMS = ['getitem', 'get_file', 'open_bin', 'open_str', 'file_open_str', 'contains', 'file_exists']
+
+
+def content_bytes(name: str, size: int) -> bytes:
+    """Deterministic printable content (no '\r': open_str translates newlines) that differs per name and per offset."""
+    if size == 0:
+        return b''
+    seed = sum(name.encode()) % 251
+    unit = bytes(33 + ((seed + 7 * i) % 90) for i in range(97)) + b'\n'
+    out = (f'<{name}:{size}>'.encode() + unit * (size // len(unit) + 1))[:size]
+    return out[:-1] + b'$' if size > 1 else out
+
+
+def gen_sized_files(rng: random.Random) -> list[tuple[str, int]]:
+    names = [nm for nm, _ in gen_files(rng, allow_dups=False)]
+    out = []
+    large = 0
+    for nm in names:
+        if large < 2 and rng.random() < 0.45:
+            out.append((nm, rng.choice(SIZES_LARGE)))
+            large += 1
+        else:
+            out.append((nm, rng.choice(SIZES_SMALL)))
+    return out
+
+
+def placement_params(rng: random.Random, placement: str, n: int) -> dict:
+    """How the VPK of one placement class is written: file name (…_dir.vpk = multi-part), dir_data_limit, arch_index per file."""
+    if placement == 'vpk-multi-default':
+        return {'file': 'p_dir.vpk', 'limit': 1024, 'arch': [0] * n}
+    if placement == 'vpk-multi-archive':
+        return {'file': 'q_dir.vpk', 'limit': rng.choice([0, 1, 3, 16]), 'arch': [rng.choice([0, 0, 1, 2]) for _ in range(n)]}
+    if placement == 'vpk-multi-dirtail':
+        return {'file': 'r_dir.vpk', 'limit': rng.choice([0, 1, 3, 16, 1024]), 'arch': [None] * n}
+    if placement == 'vpk-multi-nolimit':
+        return {'file': 's_dir.vpk', 'limit': None, 'arch': [rng.choice([0, None]) for _ in range(n)]}
+    return {'file': 'single.vpk', 'limit': rng.choice([1024, 4]), 'arch': [rng.choice([0, None]) for _ in range(n)]}
+
+
+def build_vpk_placement(dirpath: str, files, params: dict):
+    from srctools.filesys import VPKFileSystem
+    from srctools.vpk import VPK
+    os.makedirs(dirpath, exist_ok=True)
+    vp = os.path.join(dirpath, params['file'])
+    with VPK(vp, mode='w', dir_data_limit=params['limit']) as vk:
+        for (n, b), ai in zip(files, params['arch']):
+            vk.add_file(n, b, arch_index=ai)
+    return VPKFileSystem(vp)
+
+
+def vpk_place_class(info) -> str:
+    pre, tail = len(info.start_data), info.arch_len
+    where = 'dirtail' if info.arch_index is None else 'archive'
+    if not tail:
+        return 'preload-only' if pre else 'empty'
+    return f'preload+{where}' if pre else f'{where}-only'
+
+
+def read_forms(fs, q: str, encoding: str = 'latin-1') -> dict:
+    """Every public way of asking a filesystem (or chain) for the name q.  Bytes, None (= not found), bool, or 'ExcName'."""
+    def rd(opener, text=False):
+        try:
+            with opener() as fh:
+                d = fh.read()
+            return d.encode(encoding) if text else d
+        except (FileNotFoundError, IsADirectoryError):
+            return None
+        except Exception as e:      # noqa: BLE001 - an exception is a result
+            return type(e).__name__
+    def ex(fn):
+        try:
+            return bool(fn())
+        except Exception as e:      # noqa: BLE001
+            return type(e).__name__
+    return {
+        'getitem': rd(lambda: fs[q].open_bin()),
+        'get_file': rd(lambda: fs._get_file(q).open_bin()),
+        'open_bin': rd(lambda: fs.open_bin(q)),
+        'open_str': rd(lambda: fs.open_str(q, encoding), True),
+        'file_open_str': rd(lambda: fs[q].open_str(encoding), True),
+        'contains': ex(lambda: q in fs),
+        'file_exists': ex(lambda: fs._file_exists(q)),
+    }
+
+
+def forms_problems(forms: dict, want) -> list[tuple[str, str]]:
+    """(form, kind) for every form that disagrees with `want` (a set of acceptable bytes, or None = the name does not exist)."""
+    out = []
+    for form, got in forms.items():
+        if form in ('contains', 'file_exists'):
+            if got is not (want is not None):
+                out.append((form, 'says-missing' if want is not None else 'says-present'))
+        elif want is None:
+            if got is not None:
+                out.append((form, 'phantom'))
+        elif got is None:
+            out.append((form, 'not-found'))
+        elif isinstance(got, str):
+            out.append((form, 'raised-' + got))
+        elif got not in want:
+            w = next(iter(want))
+            out.append((form, 'truncated' if len(got) < len(w) and w.startswith(got) else 'wrong-bytes'))
+    return out
+
+
+def check_content(root: str, sized, params: dict, stats=None, hist=None) -> list[tuple[str, str, dict]]:
+    """Same bytes from every backend, for every VPK placement and every way of opening a file."""
+    from srctools.filesys import FileSystemChain
+    out: list[tuple[str, str, dict]] = []
+    files = [(nm, content_bytes(nm, sz)) for nm, sz in sized]
+    rep = {'op': 'content', 'files(name,size)': [list(x) for x in sized], 'placements': params}
+    bt = Built(root, files, ['virtual', 'zip', 'raw'])
+    try:
+        fss = dict(bt.fs)
+        for pl, prm in params.items():
+            fss[pl] = build_vpk_placement(os.path.join(bt.dir, pl), files, prm)
+            if hist is not None:
+                for info in fss[pl].vpk:
+                    hist('vpk_data_placement', vpk_place_class(info))
+        for name, fs in fss.items():
+            for nm, b in files:
+                szc = 'large' if len(b) > 1000 else 'small'
+                forms = read_forms(fs, nm)
+                if stats is not None:
+                    stats('content_observations', len(forms))
+                for form, kind in forms_problems(forms, {b}):
+                    got = forms[form]
+                    out.append((f'content-{name}-{form}-{kind}',
+                                f'{name}: {form}({nm!r}) gave {len(got) if isinstance(got, bytes) else got!r} bytes, the file has {len(b)}',
+                                dict(rep, backend=name, name=nm, size=len(b), size_class=szc)))
+            # the listed File objects open to the same bytes (walk_folder and __iter__)
+            for how, lister in (('walk', lambda fs=fs: fs.walk_folder('')), ('iter', lambda fs=fs: iter(fs))):
+                try:
+                    listed = {}
+                    for fl in lister():
+                        with fl.open_bin() as fh:
+                            listed[fold(fl.path)] = fh.read()
+                except Exception as e:      # noqa: BLE001
+                    out.append((f'content-{name}-{how}-exception', f'{name}: {how} raised {type(e).__name__}: {e}', dict(rep, backend=name)))
+                    continue
+                if stats is not None:
+                    stats('content_observations', len(listed))
+                want = {fold(nm): b for nm, b in files}
+                if listed != want:
+                    badn = sorted(k for k in set(listed) | set(want) if listed.get(k) != want.get(k))
+                    trunc = all(k in listed and k in want and want[k].startswith(listed[k]) for k in badn)
+                    out.append((f'content-{name}-{how}-listed-file-' + ('truncated' if trunc else 'differs'),
+                                f'{name}: files listed by {how} open to other bytes than stored for {badn[:3]}', dict(rep, backend=name)))
+            # ... and through a chain (File.open_bin -> member.open_bin(File))
+            if name.startswith('vpk') and not any(k.startswith(f'content-{name}-') for k, _, _ in out):
+                ch = FileSystemChain(fs)
+                for nm, b in files:
+                    forms = read_forms(ch, nm)
+                    for form, kind in forms_problems(forms, {b}):
+                        out.append((f'content-chain-over-{name}-{form}-{kind}', f'chain over {name}: {form}({nm!r}) disagrees with the stored {len(b)} bytes',
+                                    dict(rep, backend=name, name=nm, size=len(b))))
+    finally:
+        bt.close()
+    return out
+
+
 # ------------------------------------------------------------------------------------------------ oracle: chains
 def check_chain(root: str, sets, members, rng: random.Random, stats=None) -> list[tuple[str, str, dict]]:
     """members: [(backend kind, set index, prefix, priority)]. Reference computed from the file sets only."""
@@ -743,16 +1225,26 @@ def check_chain(root: str, sets, members, rng: random.Random, stats=None) -> lis
                 want = member_has(kind, j, pfx, q)
                 if want is not None:
                     break
-            try:
-                with ch[q].open_bin() as fh:
-                    got = fh.read()
-            except FileNotFoundError:
-                got = None
+            # every public lookup form of the chain against the same specification
+            forms = read_forms(ch, q, 'utf8')
+            got = forms['getitem']
             if stats is not None:
-                stats('chain_get_observations', 1)
-            if (want is None) != (got is None) or (want is not None and got not in want):
-                out.append(('chain-get-not-first-match', f'chain[{q!r}] gave {got!r}, the first member holding it has {want!r}',
-                            dict(rep, query=q)))
+                stats('chain_get_observations', len(forms))
+            for form, kind in forms_problems(forms, want):
+                if form == 'getitem':
+                    out.append(('chain-get-not-first-match', f'chain[{q!r}] gave {got!r}, the first member holding it has {want!r}',
+                                dict(rep, query=q)))
+                else:
+                    out.append((f'chain-{form}-{kind}', f'chain: {form}({q!r}) gave {forms[form]!r}; chain[{q!r}] gives {got!r}, the first '
+                                f'member holding the name has {want!r}', dict(rep, query=q)))
+        # iteration = the root walk
+        try:
+            it_listed = [fl.path for fl in ch]
+            root_listed = [fl.path for fl in ch.walk_folder('')]
+            if it_listed != root_listed:
+                out.append(('chain-iter-differs-from-root-walk', f'iter(chain) listed {it_listed}, walk_folder(\'\') {root_listed}', dict(rep)))
+        except Exception as e:      # noqa: BLE001
+            out.append(('chain-iter-exception', f'iter(chain) raised {type(e).__name__}: {e}', dict(rep)))
         # walks
         if raw_members:
             folders = [('', 'root')]
@@ -893,6 +1385,12 @@ CORPUS_CHAINS = [
 ]
 
 
+CORPUS_SIZED = [
+    [('models/props/crate.mdl', 1025), ('sound/ambient/hum.wav', 65536), ('top.txt', 5), ('materials/Dev/Wall.vmt', 0)],
+    [('a/big.bin', 70000), ('a/edge.bin', 65535), ('b/limit.txt', 1024), ('b/one.txt', 1)],
+]
+
+
 def shrink_files(files, pred):
     cur = list(files)
     changed = True
@@ -919,7 +1417,7 @@ def search(ck: Ck, root: str) -> None:
             if key not in found or size < len(repr(found[key][1])):
                 found[key] = (what, rep)
 
-    n = ck.budget(70, 300)
+    n = ck.budget(60, 300)
     for i in range(n):
         files = CORPUS_SETS[i] if i < len(CORPUS_SETS) else gen_files(ck.rng)
         if not files:
@@ -938,13 +1436,39 @@ def search(ck: Ck, root: str) -> None:
             small = shrink_files(files, lambda fs, key=key: any(k == key for k, _, _ in check_backends(root, fs, random.Random(seed))))
             v2 = [x for x in check_backends(root, small, random.Random(seed)) if x[0] == key]
             note(v2 or [x for x in v if x[0] == key])
+    # contents: every VPK placement, sizes around the preload limits, every way of opening
+    for i in range(ck.budget(8, 60)):
+        sized = CORPUS_SIZED[i] if i < len(CORPUS_SIZED) else gen_sized_files(ck.rng)
+        if not sized:
+            continue
+        prng = random.Random(ck.rng.randrange(1 << 30))
+        params = {pl: placement_params(prng, pl, len(sized)) for pl in VPK_PLACEMENTS}
+        ck.count('sized_file_sets')
+        for _, sz in sized:
+            ck.hist('content_size', sz)
+        if len(sized) > 1:
+            ck.seen(('sized', tuple(sized), repr(params)))
+        v = check_content(root, sized, params, stats, ck.hist)
+        for key in {k for k, _, _ in v}:
+            cur_s, cur_p = list(sized), params
+            changed = True
+            while changed and len(cur_s) > 1:
+                changed = False
+                for j in range(len(cur_s)):
+                    cs = cur_s[:j] + cur_s[j + 1:]
+                    cp = {pl: dict(prm, arch=prm['arch'][:j] + prm['arch'][j + 1:]) for pl, prm in cur_p.items()}
+                    if any(k == key for k, _, _ in check_content(root, cs, cp)):
+                        cur_s, cur_p, changed = cs, cp, True
+                        break
+            v2 = [x for x in check_content(root, cur_s, cur_p) if x[0] == key]
+            note(v2 or [x for x in v if x[0] == key])
     for files in NONASCII_SETS:
         ck.count('file_sets_nonascii')
         note(check_nonascii(root, files, random.Random(ck.rng.randrange(1 << 30)), stats))
     ck.sample({'file_set': [nm for nm, _ in CORPUS_SETS[0]], 'folder_arguments': folder_candidates(random.Random(1), CORPUS_SETS[0])[:12],
                'query_spellings_of_first': spellings(random.Random(1), CORPUS_SETS[0][0][0])})
     # chains: random members; for small chains every ordering
-    m = ck.budget(70, 350)
+    m = ck.budget(60, 350)
     for i in range(m):
         g = CORPUS_CHAINS[i] if i < len(CORPUS_CHAINS) else gen_chain(ck.rng)
         if g is None:
@@ -980,19 +1504,37 @@ def run(ck: Ck) -> None:
                'missing; the directory backend gets the exact-case subset in either slash; three fixed non-ASCII sets (ß/SS, final '
                'sigma, dotted I, ligatures) for the in-memory and zip backends; chains: 1-4 members over 1-3 file sets, optional '
                'subfolder prefix in several spellings (exact, trailing slash, re-cased, backslashed, "./d", "d/."), priority flags, '
-               'every ordering of chains of up to 3 (thorough: 4) members; walk_folder and walk_folder_repeat. '
+               'every ordering of chains of up to 3 (thorough: 4) members; walk_folder and walk_folder_repeat; every public form '
+               '([], in, _get_file, _file_exists, open_bin, open_str, File.open_str, iter) on backends and chains; VPKs written in every data '
+               'placement (preload only, directory tail, numbered archive, single file, no limit) with file sizes 0-100 and around 1024 / 65535. '
                'Distinct = different name list (sets) or member tuple (chains); non-trivial = at least two files / two members.')
     ck.trusted.append('hand-written model SM/FsChain.v interpreted over Gen/FsWalk_gen.v (tied by correspondence on every run)')
     ck.trusted.append('zipfile, srctools.vpk.VPK writer/reader and the OS directory tree used to build the real backends; posixpath')
     ck.trusted.append('vpk.py VPK.fileinfos is read only when walk_folder calls it (shape check of its directory pre-filter)')
+    ck.trusted.append('translate/c19_walk.py matches on a canonical form: its rewrite rules (inlining of single-return helpers, single-assignment '
+                      'locals and module constants, loop/comprehension, if-continue, try/else, for/else, keyword arguments, SSA renaming) are '
+                      'equivalences of Python programs; the rewritten module is executed and compared with the real one on every run '
+                      '(canonical_validation), the rules themselves are not proved')
+    ck.trusted.append('vpk.py FileInfo.read() is translated (slice displacements, homes, tests); FileInfo.write (where the bytes are put) and the '
+                      'name of the numbered archive that is opened are trusted here (property C13)')
     ck.assumptions.append('case folding is modelled for ASCII only (non-ASCII casefold: oracle on the in-memory and zip backends); stored names are clean relative paths using "/"')
     ck.assumptions.append('the platform is POSIX with a case-sensitive file system (RawFileSystem: exact names only; "\\" is converted by the library, not by the OS)')
     ck.assumptions.append('composition theorems: member prefixes and the folder argument are empty or clean relative paths (either slash, any case)')
     root = str(ck.scratch)
+    _ta = time.time()
     ok_t = ck.translate('FsWalk_gen', c19_walk.translate)
     built = ok_t and ck.build(['Props/C19.vo', 'Gen/FsWalk_gen.vo'])
+    _tb = time.time()
     if built:
-        ck.theorems('Props/C19.v')
+        # the two instance theorems are checked by their own coqc processes while the main thread goes on
+        from concurrent.futures import ThreadPoolExecutor
+        pool = ThreadPoolExecutor(max_workers=3)
+        fut_thm = pool.submit(ck.theorems, 'Props/C19.v')      # Print Assumptions of every theorem (its obligations are moved to the front below)
+        fut_compose = pool.submit(ck.coq_scratch, ''.join(f'Require Import {i}.\n' for i in IMPORTS + ['SV.SM.FsChainProofs', 'SV.SM.FsChainCompose', 'SV.SM.FsChainFormsProofs', 'SV.SM.FsChainWhole', 'SV.Props.C19'])
+                                  + INSTANCE_THEOREM, 'inst_compose', 300)
+        fut_forms = pool.submit(ck.coq_scratch, ''.join(f'Require Import {i}.\n' for i in IMPORTS + ['SV.SM.FsChainProofs', 'SV.SM.FsChainCompose', 'SV.SM.FsChainFormsProofs', 'SV.SM.FsChainWhole', 'SV.SM.FsChainReadProofs', 'SV.SM.FsChainMixed', 'SV.Props.C19'])
+                                + INSTANCE_THEOREM_FORMS, 'inst_forms', 300)
+        _tc = time.time()
         obs = {}
         for short, cfg in (('virtual', 'virtual_cfg'), ('zip', 'zip_cfg'), ('vpk', 'vpk_cfg')):
             obs[f'{short}_keys_case_and_slash_insensitive'] = f'backend_keys_ok {cfg}'
@@ -1017,19 +1559,39 @@ def run(ck: Ck) -> None:
         obs['chain_dedup_ignores_case'] = 'andb (forallb is_sf chain_dedup_ops) (has_fold chain_dedup_ops)'
         obs['chain_dedup_keeps_first_member'] = 'match chain_dedup_mode with DedupSkip => true | DedupOverwrite => false end'
         obs['chain_walk_names_relative_to_prefix'] = 'match chain_relmode with RelDropSegs => true | RelPath => false end'
+        obs['chain_exists_asks_each_member_its_own_name'] = 'exists_mode_ok chain_exists_mode'
+        obs['chain_open_goes_through_get_file'] = 'chain_open_via_get'
+        obs['filesystem_getitem_contains_iter_delegate'] = 'fs_dunders_delegate'
+        obs['vpk_open_bin_reads_whole_file'] = 'cexpr_whole false vpk_open_bin_content'
+        obs['vpk_open_str_reads_whole_file'] = 'cexpr_whole false vpk_open_str_content'
+        obs['vpk_reader_returns_preload_and_exact_rest'] = 'rexpr_whole None false vpk_reader'
         ck.instance_obligations(IMPORTS, obs)
+        _td = time.time()
         # the composition theorem instantiated at the generated configuration (type-checks only if today's chain
         # de-duplicates by skipping, lists prefix-relative names and every backend form is sound)
-        rc, out = ck.coq_scratch(''.join(f'Require Import {i}.\n' for i in IMPORTS + ['SV.SM.FsChainProofs', 'SV.SM.FsChainCompose', 'SV.Props.C19'])
-                                 + INSTANCE_THEOREM, 'inst_compose', 300)
+        rc, out = fut_compose.result()
         ck.obligation('instance-theorem:chain_walk_lookup_closed', rc == 0,
-                      'c19_chain_walk_lookup_closed applied to chain_walk_mode chain_dedup_mode chain_relmode chain_dedup_ops over '
-                      'members built from virtual_cfg / zip_cfg / vpk_cfg' + ('' if rc == 0 else ': ' + out[-400:]))
+                      'c19_chain_walk_lookup_closed and c19_chain_walk_every_entry_spec applied to chain_walk_mode chain_dedup_mode '
+                      'chain_relmode chain_dedup_ops over members built from virtual_cfg / zip_cfg / vpk_cfg' + ('' if rc == 0 else ': ' + out[-400:]))
+        rc, out = fut_forms.result()
+        ck.obligation('instance-theorem:chain_exists_and_vpk_bytes', rc == 0,
+                      'c19_chain_exists_agrees_backends at chain_exists_mode, c19_vpk_open_same_bytes at vpk_open_bin_content / '
+                      'vpk_open_str_content, c19_chain_every_form_spec (every lookup form of a chain = the specification) over '
+                      'virtual_cfg / zip_cfg / vpk_cfg, c19_vpk_open_through_reader at vpk_reader, c19_chain_with_directory_members_spec at raw_get_ops' + ('' if rc == 0 else ': ' + out[-400:]))
         import time as _t
         t0 = _t.time(); corr_backends(ck, root); t1 = _t.time(); corr_chain(ck, root); t2 = _t.time()
-        ck.extra['stage_seconds'] = {'corr_backends': round(t1 - t0, 1), 'corr_chain': round(t2 - t1, 1)}
+        ck.extra['stage_seconds'] = {'translate_build': round(_tb - _ta, 1), 'instance_obligations': round(_td - _tc, 1),
+                                     'instance_theorems_wait': round(t0 - _td, 1), 'corr_backends': round(t1 - t0, 1), 'corr_chain': round(t2 - t1, 1)}
     import time as _t
+    if ok_t:
+        t3 = _t.time(); canonical_validation(ck, root); ck.extra.setdefault('stage_seconds', {})['canonical_validation'] = round(_t.time() - t3, 1)
     t3 = _t.time(); search(ck, root); ck.extra.setdefault('stage_seconds', {})['search'] = round(_t.time() - t3, 1)
+    if built:
+        _te = time.time()
+        fut_thm.result()
+        pool.shutdown()
+        ck.extra['stage_seconds']['theorems_wait'] = round(time.time() - _te, 1)
+        ck.obligations.sort(key=lambda o: 0 if o['name'].startswith(('theorem:', 'assumptions:')) else 1)     # stable: fixed order
     keys = {v['key'] for v in ck.violations}
 
     def any_key(*subs):
@@ -1056,6 +1618,42 @@ def run(ck: Ck) -> None:
     for what, sub in (('get', 'lookup-raw-'), ('exists', 'lookup-raw-'), ('open', 'lookup-raw-'), ('walk', 'walk-raw-')):
         if any_key(sub):
             ck.explain(f'instance:raw_{what}_converts_slashes_only')
+    # a model/implementation disagreement is explained by a concrete violation on the same backend / on chains
+    dis = ck.extra.get('backend_disagreement', {}).get('backend')
+    if dis and any_key(f'lookup-{dis}-', f'walk-{dis}-', f'content-{dis}'):
+        ck.explain('correspondence:backends')
+    if 'chain_disagreement' in ck.extra and any_key('chain-'):
+        ck.explain('correspondence:chain')
+    terr = next((o['detail'] for o in ck.obligations if o['name'].startswith('translate:') and not o['ok']), '')
+    for subs, pats in ((('FileSystemChain._file_exists', '__contains__'), ('chain-contains-', 'chain-file_exists-')),
+                       (('FileSystemChain.open_bin', 'FileSystemChain.open_str'), ('chain-open_bin-', 'chain-open_str-', 'chain-file_open_str-')),
+                       (('_get_file:', '__getitem__'), ('chain-get-', 'chain-get_file-')),
+                       (('walk_folder_repeat', 'FileSystemChain.walk_folder', 'walk_folder:', '__iter__'), ('chain-walk-', 'chain-iter-')),
+                       (('add_sys',), ('chain-get-not-first-match',)),
+                       (('VPKFileSystem.open', 'content expression', 'content helper', 'FileInfo.read'), ('content-vpk',))):
+        if terr and any(x in terr for x in subs) and any_key(*pats):
+            ck.explain('translate:')
+    for cname, attr, short in (('VirtualFileSystem', '_mapping', 'virtual'), ('ZipFileSystem', '_name_to_info', 'zip'),
+                               ('VPKFileSystem', '_name_to_file', 'vpk'), ('RawFileSystem', '_resolve_path', 'raw')):
+        # a backend the translator could not classify, and a concrete violation on that very backend
+        if terr and (cname in terr or attr in terr) and any_key(f'lookup-{short}-', f'walk-{short}-', f'content-{short}'):
+            ck.explain('translate:')
+    if any_key('chain-contains-', 'chain-file_exists-'):
+        ck.explain('instance:chain_exists_asks_each_member_its_own_name')
+        ck.explain('instance-theorem:chain_exists_and_vpk_bytes')
+    if any_key('chain-open_bin-', 'chain-open_str-', 'chain-file_open_str-', 'chain-get_file-'):
+        ck.explain('instance:chain_open_goes_through_get_file')
+    if any_key('content-vpk-&-open_bin-', 'content-vpk-&-getitem-', 'content-vpk-&-get_file-', 'content-vpk-&-listed-file'):
+        ck.explain('instance:vpk_open_bin_reads_whole_file')
+        ck.explain('instance-theorem:chain_exists_and_vpk_bytes')
+    if any_key('content-vpk-&-open_str-'):
+        ck.explain('instance:vpk_open_str_reads_whole_file')
+        ck.explain('instance-theorem:chain_exists_and_vpk_bytes')
+    if any_key('content-vpk'):
+        ck.explain('instance:vpk_reader_returns_preload_and_exact_rest')
+        ck.explain('instance-theorem:chain_exists_and_vpk_bytes')
+    if any_key('chain-iter-', 'chain-contains-', 'chain-get-'):
+        ck.explain('instance:filesystem_getitem_contains_iter_delegate')
     if any_key('chain-walk-name-not-relative-to-prefix'):
         ck.explain('instance:chain_walk_names_relative_to_prefix')
     if any_key('chain-get-not-first-match'):
@@ -1068,6 +1666,9 @@ def run(ck: Ck) -> None:
     if any_key('chain-walk-', 'chain-get-', 'walk-virtual-', 'walk-zip-', 'walk-vpk-', 'lookup-virtual-', 'lookup-zip-', 'lookup-vpk-'):
         # the composition theorem needs sound backends, skip-de-duplication and prefix-relative names
         ck.explain('instance-theorem:chain_walk_lookup_closed')
+    if any_key('lookup-virtual-', 'lookup-zip-', 'lookup-vpk-', 'lookup-raw-'):
+        # the instance needs every backend to normalise its keys (backend_keys_norm at the generated configuration)
+        ck.explain('instance-theorem:chain_exists_and_vpk_bytes')
     if any_key('chain-walk-'):
         ck.explain('instance:chain_walk_in_member_order')
         ck.explain('instance:chain_dedup_ignores_case')
@@ -1096,6 +1697,10 @@ def replay(data: dict) -> int:
         elif r.get('op') == 'nonascii':
             files = [(a, b.encode()) for a, b in r['files']]
             for k, what, _ in check_nonascii(root, files, random.Random(data.get('seed', 0))):
+                print('FOUND', k, '-', what)
+        elif r.get('op') == 'content':
+            sized = [tuple(x) for x in r['files(name,size)']]
+            for k, what, _ in check_content(root, sized, r['placements']):
                 print('FOUND', k, '-', what)
         elif r.get('op') == 'chain':
             sets = [[(a, b.encode()) for a, b in s] for s in r['sets']]
